@@ -59,11 +59,11 @@ impl Prop for C17 {
         f.push(Family::new(
             "tagged",
             Mode::Full,
-            "lines '<word> <lit> <op> <lit> <word> # <comment>' with words from [none, abc, şişe, 日本, 😀😀, İı] (multi-byte before and between tokens), literals from [7, 12,5, 1.000, -3, 0x1F, 0XFF, 0b101, 0o17], operators + - * /, comments from [none, c, ş 5, 日本 december], tokens separated by a space, NBSP, U+3000 or U+2009: each number literal (prefix and sign included), each operator and the comment is reported with its own kind covering exactly its characters",
+            "lines '<word> <lit> <op> <lit> <word> # <comment>' with words from [none, abc, şişe, 日本, 😀😀, İı] (multi-byte before and between tokens), literals from [7, 12,5, 1.000, -3, 0x1F, 0XFF, 0b101, 0o17], operators + - * /, comments from [none, c, ş 5, 日本 december, toplam tutarı, é, 😀] (also ending in a multi-byte character at the end of the line), tokens separated by a space, NBSP, U+3000 or U+2009: each number literal (prefix and sign included), each operator and the comment is reported with its own kind covering exactly its characters",
             move |ch| {
                 let words = ["", "abc", "şişe", "日本", "😀😀", "İı"];
                 let lits = ["7", "12,5", "1.000", "-3", "0x1F", "0XFF", "0b101", "0o17"];
-                let comments = ["", "c", "ş 5", "日本 december"];
+                let comments = ["", "c", "ş 5", "日本 december", "toplam tutarı", "é", "😀"];
                 // the blank between tokens: a plain space, or a multi-byte white-space character
                 let blank = *ch.pick(&[" ", "\u{a0}", "\u{3000}", "\u{2009}"]);
                 let w1 = *ch.pick(&words);
@@ -100,6 +100,33 @@ impl Prop for C17 {
                     let c = format!("# {}", cm);
                     must.push((pos, pos + c.chars().count(), "Comment".to_string()));
                     push(&mut text, &mut pos, &c);
+                }
+                Some(Case { seq: SeqCase { lang: "en".into(), text, now: None }, must })
+            },
+        ));
+        f.push(Family::new(
+            "trailing-separators",
+            Mode::Full,
+            "lines '<word> <lit><sep> <lit><sep>' with words from [none, abc, ş, şşş, ölçüler, 日本], integer literals [10, 2, 1250] (a fraction followed by another separator is not a number literal), separators [',', '.', ';' or none] after each literal: every literal is reported as a Number token that starts at its first character (a swallowed trailing separator may extend it by one), also behind multi-byte words",
+            move |ch| {
+                let w = *ch.pick(&["", "abc", "ş", "şşş", "ölçüler", "日本"]);
+                let mut text = String::new();
+                let mut must = Vec::new();
+                if !w.is_empty() {
+                    text.push_str(w);
+                    text.push(' ');
+                }
+                let n = 1 + ch.choose(3);
+                for i in 0..n {
+                    let lit = *ch.pick(&["10", "2", "1250"]);
+                    let sep = *ch.pick(&[",", ".", ";", ""]);
+                    let start = text.chars().count();
+                    must.push((start, start + lit.chars().count(), "Number~".to_string()));
+                    text.push_str(lit);
+                    text.push_str(sep);
+                    if i + 1 < n {
+                        text.push(' ');
+                    }
                 }
                 Some(Case { seq: SeqCase { lang: "en".into(), text, now: None }, must })
             },
@@ -149,7 +176,10 @@ impl Prop for C17 {
                     v.class = "tokens-and-positions-checked";
                     v.expected = format!("{} ; contains {:?}", v.expected, c.must);
                     for m in c.must.iter() {
-                        if !o.ui[0].iter().any(|t| t == m) {
+                        // "Number~": a Number token that starts exactly there and ends at the literal's
+                        // end or one character later (a trailing separator may be swallowed)
+                        let present = if m.2 == "Number~" { o.ui[0].iter().any(|t| t.2 == "Number" && t.0 == m.0 && (t.1 == m.1 || t.1 == m.1 + 1)) } else { o.ui[0].iter().any(|t| t == m) };
+                        if !present {
                             v.violation = Some(format!("expected token missing: {:?}", m));
                             return v;
                         }
